@@ -21,6 +21,9 @@ RECURSIVE ProdSeq(_), SumSeq(_)
 ProdSeq(s) == IF s = <<>> THEN 1 ELSE Head(s) * ProdSeq(Tail(s))
 SumSeq(s)  == IF s = <<>> THEN 0 ELSE Head(s) + SumSeq(Tail(s))
 
+SubSeqWhereL(s, P(_)) == LET F[i \in 0..Len(s)] == IF i = 0 THEN <<>> ELSE IF P(s[i]) THEN Append(F[i - 1], s[i]) ELSE F[i - 1]
+                         IN F[Len(s)]                                        \* subsequence of the elements satisfying P
+
 Dim(g)   == Len(g.p)
 Perms(D) == {f \in [1..D -> 1..D] : \A i, j \in 1..D : i # j => f[i] # f[j]}
 Signs(D) == [1..D -> {-1, 1}]
